@@ -265,7 +265,12 @@ class MonteCarlo(SingleDriver, Generic[MoveType, CriteriaType]):
 
         return dictionary
 
-    todict = to_dict
+    def todict(self) -> dict[str, Any]:
+        """
+        Dictionary used by ASE's JSON encoder (restart files): the same as `to_dict` of the
+        actual class, not of the base class.
+        """
+        return self.to_dict()
 
     @classmethod
     def from_dict(cls, data: dict[str, Any], **kwargs_override: Any) -> Self:
